@@ -467,6 +467,7 @@ impl BuildJob<'_> {
             None,
         );
         let state = ptx.commit().map_err(RedoError::opaque_error)?;
+        let fid = self.lock.file_id();
         let job = server.start(self.t.into_string(), || {
             env::set_var(ENV_DEPTH, {
                 let mut depth = state.env().depth().to_string();
@@ -476,6 +477,9 @@ impl BuildJob<'_> {
             if unsafe { signal::signal(Signal::SIGPIPE, SigHandler::SigDfl) }.is_err() {
                 return EXIT_FAILURE;
             }
+            // We hold the target's lock while redo-unlocked runs, so a
+            // dependency that asks for the target again is a cycle.
+            cycles::add(fid.to_string());
             let _ = unistd::execvp(&argv[0], argv.as_slice());
             // Returns only if execvp failed.
             eprintln!("Failed to exec: {:?}", argv);
